@@ -406,6 +406,7 @@ def prepare(case, res):
         P.skip = None
         P.stages = [None] * (4 if kind == "routing" else 3)
         P.table, P.outs, P.dec, P.dec_raw, P.dec_opt, P.fallback = {}, [], False, [], [], (0, False)
+        P.cmp_build = P.raw_err = P.opt_err = P.dec_raw_ok = P.build_flip = False
         return P
     if res.get("panic"):
         P.skip = "harness panic: " + res["panic"]
@@ -470,12 +471,17 @@ def prepare(case, res):
             else:
                 out.append((mid(parts[0], int(parts[1])), parts[2] == "true"))
         return out
-    P.dec = (not out_err and not atom_err and not res.get("raw_build_err") and not res.get("opt_build_err")
-             and res.get("dec_raw") is not None and res.get("dec_opt") is not None)
+    valid = not out_err and not atom_err and P.status == "ok"
+    P.cmp_build = valid         # every value and outbound is valid: a build error can only be a condition without values
+    P.raw_err, P.opt_err = bool(res.get("raw_build_err")), bool(res.get("opt_build_err"))
+    # P.dec: decisions of the compiled (optimised) program are comparable with the spec
+    P.dec = valid and not P.opt_err and res.get("dec_opt") is not None
+    P.dec_raw_ok = valid and not P.raw_err and res.get("dec_raw") is not None
     P.build_note = (res.get("raw_build_err") or "", res.get("opt_build_err") or "")
-    # a list that builds before optimisation but not after (or vice versa) is a meaning change as well
-    P.build_flip = (not out_err and not atom_err and P.status == "ok" and bool(res.get("raw_build_err")) != bool(res.get("opt_build_err")))
-    P.dec_raw = dec(res.get("dec_raw") or []) if P.dec else []
+    # the list as written builds but the optimised one does not: the optimizers broke a valid configuration
+    # (the other direction is fine: merging can give an empty condition values, /repo dd2eef7 rejects it un-merged)
+    P.build_flip = valid and not P.raw_err and P.opt_err
+    P.dec_raw = dec(res.get("dec_raw") or []) if P.dec_raw_ok else []
     P.dec_opt = dec(res.get("dec_opt") or []) if P.dec else []
     return P
 
@@ -549,9 +555,10 @@ def c_case(sp, P):
         seen.add(key)
         outs.append(cpair(c_func(sp, o[0], False, o[1]), "None" if m is None else "(Some (%d%%N, %s))" % (m[0], cbool(m[1]))))
     decs = lambda l: clist(["(%d%%N, %s)" % (a, cbool(b)) for a, b in l])
-    return ("(Build_obs_case %s db %s %s %s %s (%d%%N, %s) %d %s %s %s)"
+    return ("(Build_obs_case %s db %s %s %s %s (%d%%N, %s) %d %s %s %s %s %s %s %s)"
             % (cbool(P.kind == "routing"), clist([c_rule_py(sp, r) for r in case["rules"]]), clist(stages), clist(atoms), clist(outs),
-               P.fallback[0], cbool(P.fallback[1]), P.n, cbool(P.dec), decs(P.dec_raw), decs(P.dec_opt)))
+               P.fallback[0], cbool(P.fallback[1]), P.n, cbool(P.cmp_build), cbool(P.raw_err), cbool(P.opt_err), cbool(P.dec_raw_ok), cbool(P.dec),
+               decs(P.dec_raw), decs(P.dec_opt)))
 
 
 
@@ -834,7 +841,7 @@ def describe(case, ev):
         i = bad[0]
         d["probe"] = probes[i]
         d["decision_optimised_list"] = P.res["dec_opt"][i]
-        d["decision_list_as_written_(matcher_of_unmerged_list)"] = P.res["dec_raw"][i]
+        d["decision_list_as_written_(matcher_of_unmerged_list)"] = (P.res.get("dec_raw") or {}).get(i) if isinstance(P.res.get("dec_raw"), dict) else ((P.res.get("dec_raw") or [None] * (i + 1))[i] if P.res.get("dec_raw") else "build error: " + P.build_note[0])
         d["optimised_rules"] = P.res["stages"][-1]
         try:
             names = {v: "%s|%d" % k for k, v in P.ids.items()}
@@ -850,7 +857,7 @@ def describe(case, ev):
 
 WHAT = {
     M_NEG: "REGRESSION of the repaired defect (/repo ec2de34): two neighbouring negated single-condition rules with equal outbound are merged: !f(a)->x; !f(b)->x becomes !f(a,b)->x, so packets matching exactly one of a, b are no longer routed to x",
-    M_EMPTY: "a geodata reference that expands to no value leaves a condition with an empty value list; the builder emits no match set for it, so the condition counts as true (or the rule is spliced into the next one) instead of never matching",
+    M_EMPTY: "REGRESSION of the repaired defect (/repo dd2eef7): a geodata reference that expands to no value leaves a condition with an empty value list; the builder emits no match set for it, so the condition counts as true (or the rule is spliced into the next one) instead of never matching",
     M_OUT: "MergeAndSortRulesOptimizer compares outbounds by Function.String, which prints only the first five parameters; neighbouring rules whose outbounds differ later are merged under the first outbound",
     M_DEDUP: "DeduplicateParamsOptimizer identifies values by Param.String: Key \"\"/Val \"k:v\" and Key \"k\"/Val \"v\" collide and one of two different values is dropped",
     M_CRASH: "REGRESSION of the repaired defect (/repo 2540ec6): DatReaderOptimizer indexes fields[1] of an `ext:` value without a colon inside a worker goroutine: the process dies instead of returning a configuration error",
@@ -923,7 +930,6 @@ def main(argv):
            "theorems": pinfo.get("theorems", []), "print_assumptions": pinfo.get("assumptions", []),
            "refuted_full_statements": ["C04_merge_sound_full (C04_merge_outbound_refuted; open finding C04/outbound-print-truncated)",
                                        "C04_dedup_sound_full (C04_dedup_sound_refuted; open finding C04/dedup-print-collision)",
-                                       "C04_lower_sound_full (C04_lower_sound_refuted, C04_dat_empties_condition; open finding C04/empty-geodata-expansion)",
                                        "C04_pipeline_sound_full (C04_pipeline_sound_refuted)"],
            "trusted_base": vlib.TRUSTED_BASE_COMMON + [
                "meaning of a single value (atom_sem) and of an outbound (out_sem) are parameters of the theorems; in the correspondence run they are tables filled by the real builders/matchers (one single-value rule per value) and routing.ParseOutbound",
@@ -975,7 +981,7 @@ def main(argv):
                 if ev["crashed"] or ev["skip"] is not None:
                     continue
                 codes = set(c for (_, c) in ev["errors"])
-                if codes & {1, 5, 6, 11, 12}:
+                if codes & {1, 5, 6, 11, 12, 13, 14}:
                     res.append(i)
             return res
 
@@ -1042,7 +1048,7 @@ def main(argv):
             if ti:
                 ev = all_ev[ti[0]]
                 what["correspondence_case"] = {"config_text": "\n".join(render_rule(r) for r in cases[ti[0]]["rules"]), "kind": cases[ti[0]]["kind"],
-                                               "errors": ev["errors"], "codes": "1 stage AST differs from model; 11/12 decision of the real matcher differs from the model's lower+scan (optimised / un-merged list); 5 oracle table; 6 error expected",
+                                               "errors": ev["errors"], "codes": "1 stage AST differs from model; 13/14 build error-ness of the optimised / un-merged list differs from the model (empty condition); 11/12 decision of the real matcher differs from the model's lower+scan (optimised / un-merged list); 5 oracle table; 6 error expected",
                                                "impl_stages": ev["P"].res.get("stages") if ev["P"].res else None, "stage_errs": ev["P"].res.get("stage_errs") if ev["P"].res else None,
                                                "count": len(ti)}
             if th:
@@ -1062,12 +1068,12 @@ def main(argv):
                  "mixed keys, aliases dip/dport/domain keys, geosite/geoip/ext references incl. attribute filters, empty and failing expansions, outbounds with marks/must/must_rules; "
                  "signature = (rules merged away, values removed by dedup, values added by geodata, negated neighbours that must stay unmerged, outbound-print hazards, dedup print collisions, model class, conditions left without values); "
                  "non-trivial = distinct signatures in which at least one optimizer changed the list",
-            traces_validated_against_impl=len([ev for ev in live if not ev["crashed"] and not any(c in (1, 5, 6, 11, 12) for (_, c) in ev["errors"])]),
+            traces_validated_against_impl=len([ev for ev in live if not ev["crashed"] and not any(c in (1, 5, 6, 11, 12, 13, 14) for (_, c) in ev["errors"])]),
             comparisons="per stage (alias, dat, merge+sort, dedup): impl AST = model AST; per probe: impl decision (optimised list) = spec decision on the list as written; "
                         "impl decision (optimised / un-merged list) = model's compiled program (lower + scan of the model's lists); model decision = spec (code 3 if the partial theorems' hypotheses hold, 7 otherwise)",
             cases_by_kind=kinds, skipped=len(all_ev) - len(live),
             cases_merging=len([s for s in sigs if s[0] > 0]), cases_dedup=len([s for s in sigs if s[1] > 0]), cases_geodata=len([s for s in sigs if s[2] > 0]),
-            cases_negated_neighbours=len([s for s in sigs if s[3] > 0]), cases_ext_without_colon=len(risky), cases_model_error=len([s for s in sigs if s[6] == 1]), cases_model_crash=len([s for s in sigs if s[6] == 2]),
+            cases_negated_neighbours=len([s for s in sigs if s[3] > 0]), cases_ext_without_colon=len(risky), cases_model_error=len([s for s in sigs if s[6] == 1]), cases_build_error_empty_condition=len([s for s in sigs if s[7] > 0]), cases_model_crash=len([s for s in sigs if s[6] == 2]),
             cases_outside_partial_hypotheses=len([ev for ev in live if any(c == 7 for (_, c) in ev["errors"])]),
             impl_vs_spec_failures={k: {"count": v["count"], "status": v["status"], "minimal": v["minimal"]} for k, v in reported.items()},
             samples=[{"kind": cases[len(corpus)]["kind"], "config_text": "\n".join(render_rule(r) for r in cases[len(corpus)]["rules"]),
